@@ -37,7 +37,7 @@ TIME_LIMIT = {"quick": 40, "thorough": 560}
 SHARDS = 16
 CODECS = ["null", "deflate", "bzip2", "xz"]
 REACH = {
-    "quick": {"fa_files_appended": 300, "fa_files_block_copied": 100, "blocks_over_64k": 16, "fa_files_parsed": 600, "ref_files_read": 600, "files_with_empty_blocks": 50,
+    "quick": {"fa_files_appended": 300, "fa_files_block_copied": 100, "failed_write_layouts": 16, "blocks_over_64k": 16, "fa_files_parsed": 600, "ref_files_read": 600, "files_with_empty_blocks": 50,
               "header_multi_chunk": 50, "codec_key_absent": 50, "is_avro_checked": 500,
               "blocks_tiled": 500, "fixtures_compared": 10},
     "thorough": {"fa_files_parsed": 10000, "ref_files_read": 10000},
@@ -255,6 +255,44 @@ def ref_to_fa(sh, fa, rng, case, recs, partition=None, codec=None):
     sh.count("codec_b_" + codec)
 
 
+def failed_write_layout(sh, fa, codec, k):
+    from fastavro.write import Writer
+
+    js = {"type": "record", "name": "Row", "fields": [{"name": "id", "type": "long"}, {"name": "note", "type": "string"},
+                                                      {"name": "tags", "type": {"type": "array", "items": "string"}}, {"name": "n", "type": "long"}]}
+    node, _e = RS.build(js)
+    good = [{"id": i, "note": "n%d" % i, "tags": [], "n": -i} for i in range(6)]
+    bads = [{"id": 99, "note": "x" * (50 + 400 * k), "tags": ["t"] * 20, "n": "not-a-long"},
+            {"id": 98, "note": "y" * 30, "tags": ["a", 5], "n": 1},
+            {"id": 97, "note": "z" * 3000, "tags": [], "n": 1.5e300 if k % 2 else None}]
+    fo = io.BytesIO()
+    w = Writer(fo, js, codec=codec, sync_interval=10**6 if k % 2 else 64, sync_marker=b"\x21" * 16)
+    written = []
+    info = {"dir": "fa->ref", "schema": js, "records": good, "cfg": {"codec": codec, "failed_writes": True}}
+    for i, g in enumerate(good):
+        if i in (1, 2, 4):
+            st, err = guard(w.write, bads[(i + k) % 3])
+            if st == "ok":
+                return  # this tree accepts the record: not the scenario
+            sh.count("failed_writes_before_layout_check")
+        w.write(g)
+        written.append(g)
+        if i == 3:
+            w.flush()
+    w.flush()
+    try:
+        cont = RK.parse(fo.getvalue())
+        trees = RK.records(cont, node)
+    except RK.ContainerError as e:
+        sh.violation("layout-invalid", "after failed writes the independent parser rejects the file: %s" % e, info)
+        return
+    got = [RB.to_py(node, t) for t in trees]
+    if got != written:
+        sh.violation("independent-parser-reads-differently", "after failed writes: %s" % printable(got, 200), info)
+        return
+    sh.count("failed_write_layouts")
+
+
 # ---------------------------------------------------------- (c) fixtures
 def fixtures(sh, fa):
     root = os.path.join(os.environ.get("VERIF_REPO", "/repo"), "tests", "avro-files")
@@ -359,6 +397,9 @@ def run_shard(spec):
         return sh.result()
     if spec.get("boundary"):
         sh.run_case(fixtures, sh, fa)
+    # a Writer that survives failed writes: whatever the failed records left behind must not show
+    # in the block payload an independent parser sees (records consume the payload exactly)
+    sh.run_case(failed_write_layout, sh, fa, CODECS[spec["shard"] % len(CODECS)], spec["shard"])
     # blocks far larger than any internal buffer, every codec (one configuration per shard)
     big_schema = {"type": "record", "name": "Big", "fields": [{"name": "i", "type": "long"}, {"name": "s", "type": "string"}]}
     big_node, _e = RS.build(big_schema)
